@@ -54,7 +54,7 @@ def rk(x):
 class Prop(SeqProp):
     pid = "C09"
     anchors = ["windpyutils/structures/sorted.py", "windpyutils/generic.py"]
-    quick_cases = 500
+    quick_cases = 2000
     thorough_cases = 8000
     rule = ("initialisers {empty, unsorted, with repeats, mapping, pairs} and random op sequences (set: add/discard/remove/"
             "pop/clear/in; map: store/delete/pop/popitem/setdefault/update/lookup/in) over a pool of 25 ints and floats "
